@@ -610,6 +610,7 @@ class World:
         self.exotic_plan = []  # [{"at": step, "steps": duration, "which": n}] unusual scheduler states (see _exotic_tick)
         self.fs_watch = set()  # basenames whose mutations are recorded as "fs" events
         self.prio = None  # per-thread priorities (by creation ordinal) or None
+        self.cond_events = []  # [(label, pred(world), fn(world))]: fired once as soon as pred holds (see run)
         self.pauses = []  # [{"thread": creation ordinal, "release": n-th cluster-lock release of it, "steps": D}]
         self.fault_hits = []
         self.hook_rc = {}
@@ -641,6 +642,13 @@ class World:
     def _note_lock(self, what, path, vt):
         self.effects += 1
         base = os.path.basename(path)
+        if what == "release" and getattr(vt, "own_pauses", None):
+            # pause rules attached to this very process when it was spawned (an operator command issued at a chosen moment)
+            vt.n_own_rel = getattr(vt, "n_own_rel", 0) + 1
+            for rule in vt.own_pauses:
+                if rule["release"] == vt.n_own_rel:
+                    vt.paused_until = self.steps + rule["steps"]
+                    self.note("pause", thread=vt.name, steps=rule["steps"], after=base)
         if what == "release" and self.pauses:
             vt.n_any_rel = getattr(vt, "n_any_rel", 0) + 1
             try:
@@ -1193,6 +1201,16 @@ class World:
                 ue = self.user_events[0]
                 if ue[1] is None or ue[1](self):
                     self.fire(("user", 0))
+                    continue
+            if self.cond_events:
+                # commands bound to a *condition of the world* (e.g. "one batch left with one job running"): each fires
+                # once, as soon as its predicate holds, independently of the others
+                hit = next((i for i, ce in enumerate(self.cond_events) if ce[1](self)), None)
+                if hit is not None:
+                    ce = self.cond_events.pop(hit)
+                    self.steps += 1
+                    self.note("user", cmd=ce[0], cond=True)
+                    ce[2](self)
                     continue
             ev = self.enabled()
             if not ev:
